@@ -224,6 +224,16 @@ def createConfig (cfgQmi : Ty) (readFile : Str → Option (List Nat)) (abspath :
       | .ok (.dict kvs) => fromDict cfgQmi (.dict (setKey configFileKey (.str (abspath f)) kvs))
       | .ok _ => .error (.config .toplevel [])  -- unreachable: `load_config_string` returns a dict
 
+/-- `qmi.start(context_cfg=…)`: every per-context dict goes through `config_struct_from_dict(·, CfgContext)`, in
+order; the result replaces or extends `config.contexts[key]`. `none` = outside the model. -/
+def applyContextCfg (ρ : RawTy) : List (Str × PV) → List (Str × PV) → Option (R (List (Str × PV)))
+  | contexts, [] => some (.ok contexts)
+  | contexts, (k, d) :: rest =>
+    match fromDictFull ρ d with
+    | .none => .none
+    | some (.error e) => some (.error e)
+    | some (.ok v) => applyContextCfg ρ (setKey k v contexts) rest
+
 /-- `\r` and `\n` are the same thing to `_strip_comments` -/
 def nlNorm (s : List Nat) : List Nat := s.map (fun c => if c = 13 then 10 else c)
 
